@@ -60,6 +60,13 @@ def run(ctx, report, prop, spec_file, modules, reviewed=None, skip_sides=None, o
             report.touch(f)
             cm = compare_with_spec(recv, side, ctx.canon, table, layout_entry)
             for u in cm.unknown:
+                if side == 'compose' and u.startswith('length link of ') and u.endswith('parser use not analysable') and \
+                        not (name.startswith('SshRecord') and u.startswith('length link of u1:')):   # SSH padding_length: formula tabulated by C07.R2/R3
+                    # the specification derives this field from the size of what follows it; the composer writes a value that is
+                    # not derived from the size of the data it composes (a stored or cached number can drift from the body)
+                    report.add(R1, '%s@compose/link[%s]' % (c.construct, u.split(':')[0][len('length link of '):]),
+                               'composer side differs from %s: the length field is not computed from the size of the data written after it' % entry.get('ref', 'the specification'))
+                    continue
                 report.undecided.append('%s/%s: %s' % (name, side, u))
             keys = sorted(diff_key(d) for d in cm.diffs)
             rk = '%s/%s' % (name, side)
